@@ -307,7 +307,7 @@ func (c *Cluster) lockstepRound(scripted []*Actor) {
 // boundedDelayRound is a synchronous round with bounded, unequal message delays: every pending message is delivered
 // in this round or - at most once - in the next one (so within two rounds of being sent), each link stays FIFO, and the
 // messages of different links are interleaved in a PRNG order. A vote can thus reach the next leader before the proposal
-// it answers. Timers fire only when nothing at all is in flight.
+// it answers. Timers fire only when nothing at all is in flight, and not all in the same round.
 func (c *Cluster) boundedDelayRound(jr *vbase.Rng, slowProposals bool) {
 	batch := c.Pool
 	c.Pool = nil
@@ -374,14 +374,61 @@ func (c *Cluster) boundedDelayRound(jr *vbase.Rng, slowProposals bool) {
 		}
 	}
 	c.Pool = append(held, c.Pool...)
-	if len(batch) == 0 {
-		for _, a := range c.Actors {
-			if a.Node != nil && !a.Crashed {
-				c.LocalTimeout(a)
+	// timers of different replicas do not expire at the same instant: when nothing is in flight a PRNG-chosen non-empty
+	// subset fires in this round and the others one round later, after that round's deliveries - unless their timer
+	// was restarted meanwhile (the replica changed view)
+	if len(c.lateTimers) > 0 {
+		late := c.lateTimers
+		c.lateTimers = nil
+		for _, lt := range late {
+			if lt.a.Node != nil && !lt.a.Crashed && lt.a.Node.TimerView() == lt.view {
+				c.LocalTimeout(lt.a)
 				c.FaultSteps++
 			}
 		}
+		return
 	}
+	if len(batch) == 0 {
+		var live []*Actor
+		for _, a := range c.Actors {
+			if a.Node != nil && !a.Crashed {
+				live = append(live, a)
+			}
+		}
+		first := map[int]bool{}
+		if c.staggerFirst != nil {
+			for i, a := range live {
+				if a == c.staggerFirst {
+					first[i] = true
+				}
+			}
+			c.staggerFirst = nil
+		}
+		if len(first) == 0 {
+			if len(live) > 0 {
+				first[jr.Intn(len(live))] = true
+			}
+			for i := range live {
+				if jr.Bool() {
+					first[i] = true
+				}
+			}
+		}
+		for _, i := range jr.Perm(len(live)) {
+			a := live[i]
+			if first[i] {
+				c.LocalTimeout(a)
+				c.FaultSteps++
+			} else {
+				c.lateTimers = append(c.lateTimers, lateTimer{a, a.Node.TimerView()})
+			}
+		}
+	}
+}
+
+type lateTimer struct {
+	a    *Actor
+	view hotstuff.View
 }
 
 // afterStep runs the end-of-step monitors.
